@@ -3,6 +3,10 @@ From Coq Require Import List Bool Arith NArith Lia.
 From Pipe Require Import PipeModel.
 Import ListNotations.
 
+Global Arguments seg : simpl never.
+Global Arguments find_idx : simpl never.
+Global Arguments read_ok : simpl never.
+
 Lemma hst_eqb_true a b : hst_eqb a b = true -> a = b.
 Proof. destruct a, b; simpl; congruence. Qed.
 Lemma hst_eqb_refl a : hst_eqb a a = true.
@@ -101,3 +105,9 @@ Proof.
     + simpl in H. inversion H. split; [lia|reflexivity].
     + simpl in H. destruct k; discriminate.
 Qed.
+
+Lemma find_idx_le f l : find_idx f l <= length l.
+Proof. induction l as [|a l IH]; unfold find_idx; fold find_idx; cbn [length]; [lia|]. destruct (frm_eqb f a); lia. Qed.
+
+Lemma seg_bound_gen (l fs : list frm) a n : fs = seg l a n -> a <= length l -> a + length fs <= length l.
+Proof. intros H Ha. subst fs. rewrite seg_length. lia. Qed.
